@@ -2,6 +2,7 @@ SPECIFICATION Spec
 CONSTANTS
   MaxSessions = 3
   MaxMsgs = 2
+  MaxInc = 2
   Mutant = "no_reset_on_eof"
 INVARIANTS Discipline SilenceAfterRemove
 CHECK_DEADLOCK FALSE
